@@ -26,11 +26,15 @@
     `pixels()` with fuel `3 (bb.w + 2 width + 4) (bb.h + 1) + 2` and returns the prefix seen when the
     fuel is used up; the guard says the list is shorter than the fuel, i.e. complete. (The fuels of the
     scanline `for` loop of `draw_styled` and of the `loop` inside `StyledPixelsIterator::next` are
-    PROVED never to be used up: at most three scanlines per row.)
+    PROVED never to be used up: at most three scanlines per row.) It is DISCHARGED — only `i32`-range
+    guards remain — for stroke width 0, stroke width 1 and collapsed inside strokes, and replaced by
+    C02's `TriStrokeGuard` for Center / Outside strokes of width > 1 (EG/Lemmas/C01ThickBudget.lean:
+    the budget suffices whenever everything drawn lies inside the bounding box, which is C02's claim).
 -/
-import EG.Lemmas.C01ThickTri
+import EG.Lemmas.C01ThickBudget
+import EG.Props.C02.JoinsBBox
 namespace EG.C01.Triangle
-open EG EG.Tgt EG.Joins EG.C01Thick
+open EG EG.Tgt EG.Joins EG.C01Thick EG.C02.JoinsBBox
 
 /-- The full claim for one styled triangle: the three paths leave the same pixel map on every
 target box. -/
@@ -116,6 +120,73 @@ example : TriRectsInRange ⟨⟨-3, 1⟩, ⟨6, -2⟩, ⟨2, 7⟩⟩ ⟨some 9, 
 example : TriRectsInRange ⟨⟨0, 0⟩, ⟨8, 1⟩, ⟨3, 4⟩⟩ ⟨some 9, some 5, 6, .inside⟩ ∧
     TriPixelBudgetOK ⟨⟨0, 0⟩, ⟨8, 1⟩, ⟨3, 4⟩⟩ ⟨some 9, some 5, 6, .inside⟩ := by decide +kernel
 
+/-! ### where the budget guard is discharged: only `i32`-range guards (or C02's guard) remain -/
+
+/-- The model's pixel budget suffices whenever everything `draw()` fills lies inside the bounding box
+(C02's claim) and the top row of the box is an `i32`: the budget guard is not an independent
+assumption. -/
+theorem triangle_pixel_budget_ok_of_draw_in_box (t : Tri) (style : TriStyle)
+    (h : ∀ calls bb, triDraw t style = some calls → triStyledBoundingBox t style = some bb →
+      -2147483648 ≤ bb.tl.y ∧ ∀ rc ∈ calls, ∀ p, rc.1.contains p = true → bb.contains p = true) :
+    TriPixelBudgetOK t style :=
+  triPixelBudgetOK_of_draw_in_box t style h
+
+/-- **Fill only (stroke width 0, any alignment, any colour option): the three paths agree** — guards:
+`i32` ranges only (top row of the vertex box, no rectangle saturates). -/
+theorem styled_triangle_paths_agree_width0 (t : Tri) (style : TriStyle) (hw : style.strokeWidth = 0)
+    (hg : TriTopGuard t) (hr : TriRectsInRange t style) : StyledTrianglePathsAgree t style := by
+  apply styled_triangle_paths_agree_partial t style hr
+  apply triPixelBudgetOK_of_draw_in_box
+  intro calls bb hd hbb
+  refine ⟨?_, (triangle_fill_in_bounding_box t style hw hg bb hbb).1 calls hd⟩
+  rw [vertex_box_of_thin_or_inside t style (Or.inl (by omega)) bb hbb]
+  exact hg
+example : TriTopGuard ⟨⟨-3, 1⟩, ⟨6, -2⟩, ⟨2, 7⟩⟩ ∧
+    TriRectsInRange ⟨⟨-3, 1⟩, ⟨6, -2⟩, ⟨2, 7⟩⟩ ⟨some 9, some 5, 0, .center⟩ := by decide +kernel
+
+/-- **Stroke width 1 (any alignment, with or without fill / stroke colour): the three paths agree** —
+guards: `i32` ranges only (vertices, top row of the vertex box, no rectangle saturates). -/
+theorem styled_triangle_paths_agree_width1 (t : Tri) (style : TriStyle) (hw : style.strokeWidth = 1)
+    (hi : TriI32 t) (hg : TriTopGuard t) (hr : TriRectsInRange t style) :
+    StyledTrianglePathsAgree t style := by
+  apply styled_triangle_paths_agree_partial t style hr
+  apply triPixelBudgetOK_of_draw_in_box
+  intro calls bb hd hbb
+  refine ⟨?_, (triangle_width1_in_bounding_box t style hw hi hg bb hbb).1 calls hd⟩
+  rw [vertex_box_of_thin_or_inside t style (Or.inl (by omega)) bb hbb]
+  exact hg
+example : TriI32 ⟨⟨-3, 1⟩, ⟨6, -2⟩, ⟨2, 7⟩⟩ ∧ TriTopGuard ⟨⟨-3, 1⟩, ⟨6, -2⟩, ⟨2, 7⟩⟩ ∧
+    TriRectsInRange ⟨⟨-3, 1⟩, ⟨6, -2⟩, ⟨2, 7⟩⟩ ⟨some 9, some 5, 1, .outside⟩ := by decide +kernel
+
+/-- **Collapsed inside stroke (any width; the whole triangle is painted in the stroke colour): the three
+paths agree** — guards: `i32` ranges only. -/
+theorem styled_triangle_paths_agree_collapsed_inside (t : Tri) (style : TriStyle)
+    (hal : style.strokeAlignment = .inside)
+    (hc : t.sortedClockwise.isCollapsed style.strokeWidth .right = some true)
+    (hg : TriTopGuard t) (hr : TriRectsInRange t style) : StyledTrianglePathsAgree t style := by
+  apply styled_triangle_paths_agree_partial t style hr
+  apply triPixelBudgetOK_of_draw_in_box
+  intro calls bb hd hbb
+  refine ⟨?_, (triangle_collapsed_inside_in_bounding_box t style hal hc hg bb hbb).1 calls hd⟩
+  rw [vertex_box_of_thin_or_inside t style (Or.inr hal) bb hbb]
+  exact hg
+example : (⟨⟨0, 0⟩, ⟨9, 1⟩, ⟨2, 7⟩⟩ : Tri).sortedClockwise.isCollapsed 4 .right = some true ∧
+    TriTopGuard ⟨⟨0, 0⟩, ⟨9, 1⟩, ⟨2, 7⟩⟩ ∧
+    TriRectsInRange ⟨⟨0, 0⟩, ⟨9, 1⟩, ⟨2, 7⟩⟩ ⟨some 9, some 5, 4, .inside⟩ := by decide +kernel
+
+/-- **Center / Outside stroke of width > 1 (with or without fill): the three paths agree** under the
+guard of C02's bounding-box theorem (`TriStrokeGuard`) instead of the budget guard. -/
+theorem styled_triangle_paths_agree_stroke (t : Tri) (style : TriStyle) (hw : 2 ≤ style.strokeWidth)
+    (hal : style.strokeAlignment ≠ .inside) (hg : TriStrokeGuard t style)
+    (hr : TriRectsInRange t style) : StyledTrianglePathsAgree t style := by
+  apply styled_triangle_paths_agree_partial t style hr
+  apply triPixelBudgetOK_of_draw_in_box
+  intro calls bb hd hbb
+  exact ⟨(triCtx_stroke t style hw hal hg bb hbb).1,
+    triangle_stroke_draw_in_bounding_box_partial t style hw hal hg bb hbb calls hd⟩
+example : TriStrokeGuard ⟨⟨0, 0⟩, ⟨9, 1⟩, ⟨2, 7⟩⟩ ⟨some 1, some 2, 3, .center⟩ ∧
+    TriRectsInRange ⟨⟨0, 0⟩, ⟨9, 1⟩, ⟨2, 7⟩⟩ ⟨some 1, some 2, 3, .center⟩ := by decide +kernel
+
 /-- `draw()` of a styled triangle: draw_iter-only target = native-fill target (no guard). -/
 theorem styled_triangle_default_eq_native (t : Tri) (style : TriStyle) (B : Rect)
     (calls : List (Rect × Nat)) (_hd : triDraw t style = some calls) :
@@ -155,7 +226,7 @@ example : (⟨none, some 5, 0, .center⟩ : TriStyle).isTransparent = true ∧
     TriPixelBudgetOK ⟨⟨-3, 1⟩, ⟨6, -2⟩, ⟨2, 7⟩⟩ ⟨none, some 5, 0, .center⟩ := by decide +kernel
 
 -- [V] styled triangle: that `draw()` issues the same `fill_solid` list whatever the target type (Rust parametricity of `draw_styled` in `D: DrawTarget`): carried by correspondence + oracle only (stream `thick.triangle`: R2 call log `draw=`, pixel sequence `px=`, class `C01:pixels-vs-draw:thick-triangle`)
--- [V] styled triangle: that the pixel list of the model is complete (`TriPixelBudgetOK`: fuel of the model's drain of `pixels()`; decidable, true on every op of the stream) for ALL inputs: carried by correspondence + oracle only (a truncated list would disagree with the real `px=`)
+-- [V] styled triangle: that the pixel list of the model is complete (`TriPixelBudgetOK`: fuel of the model's drain of `pixels()`; decidable, true on every op of the stream) for ALL inputs — proved for stroke width 0, width 1, collapsed inside strokes (i32 guards only) and Center / Outside strokes under C02's `TriStrokeGuard`, and whenever everything drawn lies inside the bounding box; open for non-collapsed Inside strokes of width > 1: carried by correspondence + oracle only (a truncated list would disagree with the real `px=`; `styled_triangle_pixels_prefix`: truncation is the only way to fail)
 -- [V] styled triangle: `StyledPixelsIterator::new` calls `lines_iter.next()` once and the first `next()` calls it again when that returned `None`; the real `ScanlineIterator` is not fused (a row without an intersection returns `None`, the following call goes on with the next row), the model's `TriScanlines.next` returns no successor state with `None` (a repeated call repeats the `None`). The two differ only if the FIRST row of the styled bounding box has no scanline while a later one has; that this does not happen is carried by correspondence + oracle only (`px=` compared per op; `C01:pixels-vs-draw:thick-triangle`)
 
 end EG.C01.Triangle
